@@ -303,10 +303,51 @@ func runPage(cfg *config) {
 	}
 }
 
+// hugeValueSize reports whether decoding this (damaged) leaf image would allocate an absurd value
+// buffer: decodeLeaf does `make([]byte, cell.valueSize)` with the 32-bit size it reads from the
+// page, so a damaged size field asks for up to 4 GiB per cell (observed: a 41 GB harness).  Such
+// images are left out of the comparison; what they show is noted in DESIGN.md (section 11.7).
+func hugeValueSize(raw []byte) bool {
+	page := make([]byte, 4096)
+	copy(page, raw)
+	if page[0] != storage.LeafNode {
+		return false
+	}
+	pos := 1 + 8 + 8 + 1 + 1 + 8 + 8
+	u32 := func(p int) uint32 {
+		return uint32(page[p]) | uint32(page[p+1])<<8 | uint32(page[p+2])<<16 | uint32(page[p+3])<<24
+	}
+	if pos+4 > len(page) {
+		return false
+	}
+	n := int(u32(pos))
+	pos += 4 + 2*n
+	if n > 2000 || pos+2 > len(page) {
+		return false // the offset array alone runs off the page: decode stops with an error
+	}
+	free := int(page[pos]) | int(page[pos+1])<<8
+	pos += 2 + free
+	for i := 0; i < n; i++ {
+		if pos+9 > len(page) {
+			return false
+		}
+		sz := u32(pos + 5)
+		if sz > 1<<20 {
+			return true
+		}
+		pos += 9 + int(sz)
+	}
+	return false
+}
+
 func rawCase(cfg *config, id int, path string, hexs string) {
 	var raw []byte
 	if hexs != "-" {
 		fmt.Sscanf(hexs, "%x", &raw)
+	}
+	if hugeValueSize(raw) {
+		cfg.st.Inc("raw.skipped-huge-allocation")
+		return
 	}
 	cfg.tr.Case(id)
 	cfg.tr.Op("raw %s", hexs)
